@@ -195,7 +195,10 @@ func (v *Validator) PartialCopy() *Validator {
 	if consAddr := v.consAddr.Load(); consAddr != nil {
 		newVal.consAddr.Store(consAddr)
 	}
-	newVal.Delegations = v.Delegations
+	// The copy owns its list: UpdateDelegationFrom edits the list in place and the original is what the
+	// journal keeps as the old value. The entries themselves are shared: they are replaced, never written in place.
+	newVal.Delegations = make(DelegationFroms, len(v.Delegations))
+	copy(newVal.Delegations, v.Delegations)
 	newVal.Ext = v.Ext
 	return newVal
 }
